@@ -162,7 +162,7 @@ def run(chk):
             continue
         rep["command"] = cmd
         gg = g.in_generations()
-        if semcheck.near_coincident(gg):
+        if semcheck.near_coincident(gg) or semcheck.near_coincident(g):
             chk.count("skipped_near_coincident_times")
             continue
         full_pulse = any(p.proportions[0] == 1 for p in g.pulses)
